@@ -521,6 +521,16 @@ func buildPlans(thorough bool) []plan {
 		}
 	}
 
+	// 4i. the write-error ending with an unresponsive peer, in the quick tier too: a client that never reads
+	// (300 x 100 KB answers fill the socket buffers and the outgoing queue, senders block), the write loop hits
+	// its 5 s write deadline and exits; teardown is accounted while the client still holds the connection (slow)
+	for _, p := range protos {
+		p := p
+		plans = append(plans, plan{mode: "flood", slow: true, make: func(r *rng.R) Script {
+			return Script{Proto: p, Labels: []Label{msg("init", 0, "none", ""), msg(startType(p), 2, "doc", "sub")}, End: "drop", Flood: 300, Mute: true}
+		}})
+	}
+
 	// 5. keep-alive periods: the conversation waits 15 s (+ margin) per tick label, so these few run
 	// beside the worker pool from the start and are handed out last
 	for _, p := range protos {
